@@ -89,6 +89,22 @@ func VerifGenLeaf(hf HashFunction, leaf, skSeed, pubSeed []uint8, h uint32, idx 
 	genLeafWOTS(hf, leaf, skSeed, NewXMSSParams(WOTSParamN, h, WOTSParamW, WOTSParamK), pubSeed, &lTreeAddr, &otsAddr)
 }
 
+// VerifWOTSSign is the library's wotsSign for leaf idx of (skSeed, pubSeed): the OTS seed is derived
+// with getSeed exactly as xmssFastSignMessage does. With VerifGenLeaf, VerifValidateAuthPath, VerifPRF
+// and VerifHMsg it lets the harness assemble valid signatures for keys that consist of one
+// authentication path only (any height, no tree), from the library's own building blocks.
+func VerifWOTSSign(hf HashFunction, msgHash, skSeed, pubSeed []uint8, idx uint32) []uint8 {
+	params := NewWOTSParams(WOTSParamN, WOTSParamW)
+	var otsAddr [8]uint32
+	otsAddr[3] = 0
+	otsAddr[4] = idx
+	otsSeed := make([]uint8, WOTSParamN)
+	getSeed(hf, otsSeed, skSeed, WOTSParamN, &otsAddr)
+	sig := make([]uint8, params.keySize)
+	wotsSign(hf, sig, msgHash, otsSeed, params, pubSeed, &otsAddr)
+	return sig
+}
+
 func VerifLTree(hf HashFunction, w uint32, leaf, wotsPK, pubSeed []uint8, addr *[8]uint32) {
 	lTree(hf, NewWOTSParams(WOTSParamN, w), leaf, wotsPK, pubSeed, addr)
 }
